@@ -261,6 +261,10 @@ func (r *rpcStub) GetTxOut(txid string, vout uint32) (*txwatcher.TxOutResp, erro
 	if f != nil && f.Kind == "err" {
 		return nil, errors.New("rpc: connection refused")
 	}
+	if f != nil && f.Kind == "empty" {
+		// the back-end does not know the output (yet): e.g. the transaction has not reached it
+		return nil, nil
+	}
 	conf, ok := r.c.TxOut(txid, vout)
 	if !ok {
 		return nil, nil
